@@ -207,7 +207,7 @@ func runConcCase(env *seqEnv, trNo int, cc *ConcCase) (*Trace, error) {
 		maxCas = cas
 	}
 	reset := SeqStep{K: "reset", Tr: trNo, Mode: env.mode, Coll: "-", Op: "-", A: x.emptyArgs(), R: Res{Cls: "ok", Body: NoBody(), Cas: tr.C(0)},
-		Post: []PostDoc{}, Live: []CollEvs{}, Dump: []CollEvs{}, Aux: []AuxObs{}, Start: startRefs, Skiplive: true, P: "-", Shown: []*CasRef{}, Dump2: []Dump2Obs{}, Mlive: []CollEvs{}}
+		Post: []PostDoc{}, Live: []CollEvs{}, Dump: []CollEvs{}, Aux: []AuxObs{}, Start: startRefs, Skiplive: true, P: "-", Shown: []*CasRef{}, Dump2: []Dump2Obs{}, Mlive: []CollEvs{}, Klive: []CollEvs{}}
 	tr.Add(&reset)
 	prevDoc := map[string]string{}
 	{
@@ -229,7 +229,7 @@ func runConcCase(env *seqEnv, trNo int, cc *ConcCase) (*Trace, error) {
 	}
 	emit := func(or *opRun) {
 		st := &SeqStep{K: "call", Tr: trNo, I: len(cr.lines) + 1, Mode: env.mode, Coll: or.op.Coll, Op: or.op.Op, A: or.a, R: or.r,
-			Live: emptyLive(), Dump: []CollEvs{}, Aux: []AuxObs{}, Start: startRefs, Skiplive: true, P: or.proc, Shown: []*CasRef{}, Dump2: []Dump2Obs{}, Mlive: []CollEvs{}}
+			Live: emptyLive(), Dump: []CollEvs{}, Aux: []AuxObs{}, Start: startRefs, Skiplive: true, P: or.proc, Shown: []*CasRef{}, Dump2: []Dump2Obs{}, Mlive: []CollEvs{}, Klive: []CollEvs{}}
 		st.Post = cr.project(prevDoc, known)
 		for _, pd := range st.Post {
 			if pd.D.Gx.Cas != nil && pd.D.Gx.Cas.raw > maxCas && pd.D.Gx.Cas.raw < maxCas+(1<<40) {
